@@ -32,6 +32,14 @@ Definition monitor (c : case) : list N :=
   (match v_addr v with
    | QOk true (Some false) => if is_fail (v_tlsa_orig v) && negb (lookup_eqb (c_res c) LErr) then [21] else []
    | _ => []
+   end) ++
+  (* authenticated address, usable records published at the MX name itself, and the canonical name
+     (if any) has no authenticated records of its own: they are the ones to use (RFC 7672, 2.2.2) *)
+  (match v_addr v, v_tlsa_orig v with
+   | QOk true (Some ic), QOk true (x :: l) =>
+       let canon_decides := ic && match v_tlsa_canon v with QFail => true | QOk true (_ :: _) => true | _ => false end in
+       if negb canon_decides && negb (lookup_eqb (c_res c) (LRecs (x :: l))) then [22] else []
+   | _, _ => []
    end).
 Definition monitor_failures (cs : list case) : list (N * list N) :=
   let fix go (i : N) (l : list case) :=
